@@ -35,7 +35,9 @@ TRUSTED = [
     "pairs recorded from np.tanh along the run, so Coq checks the linear parts, the leak and the conversion, not tanh itself",
 ]
 ASSUMPTIONS = ["noise gains are 0 in legacy scenarios (the theorem is stated for noise 0)",
-               "a pickle round trip is done in the same process, while the original objects are alive (names get the '-(copy)' suffix)",
+               "pickle round trips are done in the same process; which names are taken when the bytes are loaded is part of the scenario "
+               "(originals alive, Model object collected, everything collected and the model's name taken by another Model) and is read from "
+               "the class registries just before loading",
                "pickle scenarios use only picklable node kinds (no closures): Reservoir / Ridge / Delay / NVAR / Input / Output"]
 
 warnings.filterwarnings("ignore")
@@ -649,7 +651,9 @@ def correspondence(ctx):
     failing, err = core.run_cases(ctx.pid, IMPORTS, terms, chunk=12)
     return {"evaluations": len(terms), "distinct_nontrivial": len(nt),
             "rule": "copies: random DAG models, six feedback topologies and single nodes (all scenario node kinds), after 0-3 operations, copied by "
-                    "copy.deepcopy / pickle round trip / Node.copy(name fresh or taken, copy_feedback on/off); the other side is run and every array it owns is "
+                    "copy.deepcopy / pickle round trip / pickle with the Model object (or model and nodes) garbage-collected before the bytes are loaded, so that the "
+                    "model's name and the nodes' names are free or taken independently / Node.copy(name fresh or taken, copy_feedback on/off); the copied object is "
+                    "the model as built, a registered Model rebuilt from unregistered node copies, or an unregistered copy extended in place (&=) with a fresh node; the other side is run and every array it owns is "
                     "overwritten in place, then 2-4 operations (run/call/reset, stateful on/off, from_state) are replayed on this side; names, registry keys, "
                     "feedback senders, array sharing and equality are compared with the object-store model and the whole history with chk_hist. "
                     "legacy: ESNs (dense/sparse W, bias, feedback with fbfunc id/half/relu, trained or not, 1-2 outputs) saved, loaded, converted and run; "
